@@ -1,4 +1,6 @@
 use crate::report::{Ctx, Report, Spec};
+pub mod broad;
+pub mod c03;
 pub mod c06;
 pub mod c07;
 pub mod c13;
@@ -12,6 +14,7 @@ pub fn dispatch(ctx: &Ctx) -> Option<(Spec, Report)> {
     Some(match ctx.id.as_str() {
         "C01" => wire::run(ctx, 1),
         "C02" => wire::run(ctx, 2),
+        "C03" => c03::run(ctx),
         "C06" => c06::run(ctx),
         "C07" => c07::run(ctx),
         "C13" => c13::run(ctx),
